@@ -86,6 +86,13 @@ func (g *Graph) continueWalking(found chan x509.CertificateChain, start *GraphEd
 		return
 	}
 
+	// A self-signed certificate that is not a root leads back to its own
+	// SubjectAndKey, which is already in the chain. Any further certificate
+	// would be issued to that same SubjectAndKey, so stop here.
+	if soFar.SubjectAndKeyInChain(current.SubjectAndKey) {
+		return
+	}
+
 	// If we've traveled too far, just stop.
 	if len(soFar) >= maxIntermediateCount {
 		return
